@@ -15,6 +15,7 @@ import OFV.Proofs.C03Main
 import OFV.Proofs.C03Exact
 import OFV.Proofs.C02Real
 import OFV.Proofs.C02PauliHerm
+import OFV.Proofs.C02MajComm
 
 namespace OFV.C02
 open OFV OFV.Model OFV.Model.C02 OFV.Proofs.C02
@@ -398,5 +399,29 @@ theorem is_hermitian_qubit_complete (tol : Rat) (ht : 0 < tol) (a : Op) (n : Nat
   rw [(is_hermitian_qubit_iff_real a n wa hc hb).1 hh e he, closeRel_eq]
   have := coefClose_refl tol ht e.2
   simpa [Spec.C02.coefClose] using this
+
+/-! ## `MajoranaOperator.commutes_with`, general path -/
+
+/-- **Majorana canonicity**: the strings `γ_S` (`S` strictly increasing, all modes `< n`) act
+linearly independently on the `2^n` Fock basis states (trace orthogonality: for `S ≠ T` the
+summands of `tr(γ_S† γ_T)` vanish or cancel under `s ↦ s ⊕ 2^j`). -/
+theorem majorana_strings_independent (D : MOp) (n : Nat) (hg : MajGood n D)
+    (hz : ∀ s t, s < 2 ^ n → melM D t s = 0) : ∀ e ∈ D, e.2 = 0 :=
+  maj_independent D n hg hz
+
+/-- FULL STATEMENT: `self * other == other * self` is True iff the operators commute in the Spec.
+Proved under the explicit exact-regime hypothesis `hexact` (coefficients of the two product
+dictionaries that numpy.isclose calls close are equal — decidable on every instance, true for
+dyadic inputs): then the coded test is True iff `A·B` and `B·A` (the Model products, whose
+matrix elements are the products of the denoted operators by C01 `mul_hom_majorana`) have the same
+Spec matrix elements on all `2^n` basis states. -/
+theorem commutes_with_general_iff_partial (atol rtol : Rat) (ha : 0 ≤ atol) (n : Nat) (a b : MOp)
+    (sa : ∀ e ∈ a, e.1.Pairwise (· < ·) ∧ ∀ m ∈ e.1, m < 2 * n)
+    (sb : ∀ e ∈ b, e.1.Pairwise (· < ·) ∧ ∀ m ∈ e.1, m < 2 * n)
+    (hexact : ∀ t, Spec.C02.majCoefClose atol rtol (Dict.get? (mmul a b) t) (Dict.get? (mmul b a) t) = true →
+      Dict.getD (mmul a b) t 0 = Dict.getD (mmul b a) t 0) :
+    majEq atol rtol (mmul a b) (mmul b a) = true ↔
+      ∀ s t, s < 2 ^ n → melM (mmul a b) t s = melM (mmul b a) t s :=
+  commutes_general_iff atol rtol ha n a b sa sb hexact
 
 end OFV.C02
